@@ -200,6 +200,37 @@ def run_case(tier, seed, index, spec=None):
                     m = C.close_tensor(o['value'], e2, tolname)
                     if m:
                         V(f'value:{nm}:{S}', m, shapes=[ni, nj, nk])
+        # chained operations: an operand that is itself the RESULT of an earlier library operation (its size-1 axis is
+        # whatever unit axis that operation produced, not the module constant) meets an operand whose size-1 axis is typed
+        # as a one-summand sum 0 + () + 0 -- the library says these unify (PatternedTensor.__post_init__ comment)
+        if index % 11 == 6:
+            zero = {'real': 0.0, 'log': -math.inf, 'viterbi': -math.inf, 'bool': False}[S]
+            n, m = rng.randint(1, 4), rng.randint(1, 5)
+            mk = lambda *sh: torch.tensor([rng.choice(vals) for _ in range(math.prod(sh))], dtype=dtype).reshape(sh)
+            dM, dw, da = mk(1, m), mk(m), mk(n)
+            szv = dict(i=1, j=m)
+            dv = E.to_tensor(E.einsum([dM, dw], [('i', 'j'), ('j',)], ('i',), szv, S), ('i',), szv, dtype)
+            sz = dict(i=n, j=1)
+            e2 = E.to_tensor(E.einsum([da.reshape(n, 1), dv], [('i', 'j'), ('j',)], ('i',), sz, S), ('i',), sz, dtype)
+            X = I.PhysicalAxis(n)
+            mkA = lambda: I.PatternedTensor(da.clone(), (X,), (X, I.SumAxis(0, I.unitAxis, 0)), default=zero)
+            first = C.call(lambda: I.PatternedTensor(dM.clone(), default=zero).mv(I.PatternedTensor(dw.clone(), default=zero), sr))
+            obs['chained_calls'] = obs.get('chained_calls', 0) + 1
+            if not first['ok']:
+                V(f"exception:mv:{first['exc_type']}:{first.get('where', '')}", f'mv raised {first["exc"]}', traceback=first['tb'])
+            else:
+                v = first['value']
+                for nm, lib in (('mv-after-mv', lambda: mkA().mv(v, sr)),
+                                ('einsum-after-mv', lambda: I.einsum([v, mkA()], ['j', 'ij'], 'i', sr)),
+                                ('mv-fresh-vector', lambda: mkA().mv(I.PatternedTensor(dv.clone(), default=zero), sr))):
+                    o = C.call(lib)
+                    obs['mv_mm_calls'] += 1
+                    if not o['ok']:
+                        V(f"exception:{nm}:{o['exc_type']}:{o.get('where', '')}", f'{nm} raised {o["exc"]}', traceback=o['tb'], shapes=[n, m])
+                    else:
+                        mm_ = C.close_tensor(A.densify_pt(o['value']), e2, tolname)
+                        if mm_:
+                            V(f'value:chained:{nm}:{S}', mm_, shapes=[n, m], a=da.tolist(), M=dM.tolist(), w=dw.tolist())
         # empty operand list
         if index % 50 == 0:
             o = C.call(lambda: I.einsum([], [], [], sr))
@@ -277,7 +308,7 @@ def finalize(tot, tier, seed):
     inc = []
     if tot['hooks'].get('reduce_equation', 0) == 0:
         inc.append('hook reduce_equation never reached')
-    for k in ('einsum_calls', 'viterbi_calls', 'reductions_dropping_stride0', 'unification_failures_zero', 'grad_path_calls', 'mv_mm_calls', 'pointer_cells_checked'):
+    for k in ('einsum_calls', 'viterbi_calls', 'reductions_dropping_stride0', 'unification_failures_zero', 'grad_path_calls', 'mv_mm_calls', 'pointer_cells_checked', 'chained_calls'):
         if tot['obs'].get(k, 0) == 0:
             inc.append(f'{k} never observed')
     for f in ('zero-size', 'repeated-index-in-operand', 'float32'):
